@@ -302,7 +302,9 @@ func decodeType(fold []byte, state *stateDecode) (*decoder, []byte, error) {
 				return value, packet, nil
 			}
 
-			if n > len(packet) {
+			// every element takes at least one byte - unless its type has no content at all (struct{}, [0]T)
+			empty := decItem.Type.Size() == 0
+			if n > len(packet) && empty == false {
 				return nil, nil, fmt.Errorf("incorrect data length")
 			}
 
@@ -323,6 +325,10 @@ func decodeType(fold []byte, state *stateDecode) (*decoder, []byte, error) {
 				_, p, err := decItem.Decode(&item, packet, state)
 				if err != nil {
 					return nil, nil, err
+				}
+				if empty && len(p) == len(packet) {
+					// nothing was read and there is nothing to tell such elements apart: the rest is the same
+					break
 				}
 				packet = p
 			}
